@@ -12,13 +12,14 @@ install_demo() {
   if [ -f $SRC/demo.rs ]; then cp $SRC/demo.rs tests/seeded_demo.rs; fi
   for d in $SRC/demo*.diff; do [ -f "$d" ] && git apply $d 2>/dev/null; done
 }
-# without the change
+# without the change (DEMO_RUSTFLAGS: flags only for the runs that include the demonstration, e.g. a demo that drives
+# the crate through its cfg(circ_verif) hooks)
 install_demo
-timeout 900 cargo test --offline --workspace --no-fail-fast > /tmp/confirm_${ID}_$V.clean.log 2>&1; CLEAN=$?
+RUSTFLAGS="${DEMO_RUSTFLAGS:-}" timeout 900 cargo test --offline --workspace --no-fail-fast > /tmp/confirm_${ID}_$V.clean.log 2>&1; CLEAN=$?
 git checkout -q -- . ; git clean -fdq -e target
 git apply $SRC/patch.diff
 timeout 900 cargo test --offline --workspace --no-fail-fast > /tmp/confirm_${ID}_$V.base.log 2>&1; BASE=$?
 install_demo
-timeout 900 cargo test --offline --workspace --no-fail-fast > /tmp/confirm_${ID}_$V.mut.log 2>&1; MUT=$?
+RUSTFLAGS="${DEMO_RUSTFLAGS:-}" timeout 900 cargo test --offline --workspace --no-fail-fast > /tmp/confirm_${ID}_$V.mut.log 2>&1; MUT=$?
 res "clean+demo rc=$CLEAN  mutated(existing tests only) rc=$BASE  mutated+demo rc=$MUT"
 cd /repo; git worktree remove --force $WT
